@@ -55,6 +55,8 @@ def run_rule_cases(variant, groups, wd, name, flags=0, extra_lines_before=(), ha
                 cur["ok"] = False
         elif e == "GetRules" and ev["ret"] != 0:
             cur["ok"] = False
+        elif e == "Atom":
+            cur.setdefault("atoms", []).append({"s": ev["s"], "b": ev["b"], "bt": ev["bt"]})
         elif e == "ScanCall":
             cur["scans"].append({})
             cur.setdefault("chains", []).append({})
@@ -72,6 +74,32 @@ def run_rule_cases(variant, groups, wd, name, flags=0, extra_lines_before=(), ha
             cur["rets"].append(ev["ret"])
         elif e == "RelocAudit":
             cur.setdefault("audits", []).append(ev)
+    return run, per
+
+
+def run_rule_cases_fiber_retry(variant, groups, wd, name, stats, **kw):
+    """run_rule_cases, then: scans that ended with ERROR_TOO_MANY_RE_FIBERS (46) are repeated in a build whose fiber pool is 256
+    times larger.  A case that gets a verdict there had hit the documented complexity limit of the production build - outside what
+    the regexp properties quantify over - and is judged on that verdict; a case that fails there too stays an error (runaway
+    fiber creation exhausts any pool: D45)."""
+    run, per = run_rule_cases(variant, groups, wd, name, **kw)
+    if not run.complete:
+        return run, per
+    hit = [gi for gi, g in per.items() if g["ok"] and 46 in g["rets"]]
+    for k, gi in enumerate(hit[:40]):          # one process per case: a runaway case overflows the stack with the large pool
+        run2, per2 = run_rule_cases(variant, [groups[gi]], wd, "%s_bigpool%d" % (name, k), extra_cflags="-DRE_MAX_FIBERS=262144", **{kk: v for kk, v in kw.items() if kk != "extra_cflags"})
+        g, g2 = per[gi], per2.get(0)
+        nhit = sum(1 for x in g["rets"] if x == 46)
+        stats["fiber_limit_hit"] = stats.get("fiber_limit_hit", 0) + nhit
+        if not run2.complete or g2 is None or not g2["ok"] or len(g2["rets"]) != len(g["rets"]):
+            stats["still_failing_with_the_large_pool"] = stats.get("still_failing_with_the_large_pool", 0) + nhit
+            continue
+        for bi, ret in enumerate(g["rets"]):
+            if ret == 46 and g2["rets"][bi] == 0:
+                g["rets"][bi] = 0; g["scans"][bi] = g2["scans"][bi]
+                stats["judged_on_the_large_pool"] = stats.get("judged_on_the_large_pool", 0) + 1
+            elif ret == 46:
+                stats["still_failing_with_the_large_pool"] = stats.get("still_failing_with_the_large_pool", 0) + 1
     return run, per
 
 
